@@ -332,8 +332,8 @@ Definition mstep (cfg : config) (s s' : state) : Prop := s' = s \/ exists l, ste
 
 (** coupled runs: the skeleton semantics takes any enabled action whose data choice is the one the coupled model state
     dictates; the model state follows by at most one step to a state the new skeleton state stands in for *)
-Inductive crun (cfg : config) : gstate -> state -> list action -> list event -> gstate -> state -> Prop :=
-| crun_nil : forall g s, crun cfg g s [] [] g s
+Inductive crun (Pg : list func) (cfg : config) : gstate -> state -> list action -> list event -> gstate -> state -> Prop :=
+| crun_nil : forall g s, crun Pg cfg g s [] [] g s
 | crun_cons : forall g s a g1 ev s1 acts evs g2 s2,
-    gstep P g a = Some (g1, ev) -> data_ok s g a -> mstep cfg s s1 -> skel_rel cfg g1 s1 ->
-    crun cfg g1 s1 acts evs g2 s2 -> crun cfg g s (a :: acts) (ev ++ evs) g2 s2.
+    gstep Pg g a = Some (g1, ev) -> data_ok s g a -> mstep cfg s s1 -> skel_rel cfg g1 s1 ->
+    crun Pg cfg g1 s1 acts evs g2 s2 -> crun Pg cfg g s (a :: acts) (ev ++ evs) g2 s2.
